@@ -647,8 +647,8 @@ class ViewRepresentation(OperatorPlatform, abc.ABC):
             )
             same_windowing = (
                 data_algebra.expr_rep.implies_windowed(parsed_ops)
-                == self.windowed_situation
-            )
+                or (partition_by == 1)
+            ) == self.windowed_situation
             if (
                 compatible_partition
                 and same_windowing
